@@ -84,6 +84,8 @@ def main():
             open(os.path.join(d, "main.pn"), "w").write(MAIN2)
             files = ["main.pn", "lib.pn"] if rng.chance(1, 2) else ["lib.pn", "main.pn"]
         compile_ok = inp in ("valid", "two")
+        if inp in ("valid", "two") and rng.chance(1, 3):
+            files = [os.path.join(d, f) for f in files]      # the sources named by absolute paths
         flag = rng.chance(1, 3)
         env = rng.chance(1, 2)
         cfg = rng.chance(1, 2) and sub in ("build", "default")
@@ -170,9 +172,14 @@ def main():
                 problems.append("diagnostics although --silent")
         if compile_ok and outdir and sub in ("emit", "run", "build", "default"):
             for f in files:
-                ll = os.path.join(d, "out", f + ".ll")
-                if not os.path.exists(ll) or b"define" not in open(ll, "rb").read():
-                    problems.append("missing or empty %s" % ll)
+                # the source may have been named by an absolute path (then the file lies under out/<that path>) or relatively
+                rel = f[len(d) + 1:] if f.startswith(d + os.sep) else f
+                cands = [os.path.join(d, "out", rel + ".ll"), os.path.join(d, "out", f.lstrip(os.sep) + ".ll")]
+                if not any(os.path.exists(ll) and b"define" in open(ll, "rb").read() for ll in cands):
+                    problems.append("no %s.ll with the module's IR under the output directory" % rel)
+            stray = [x for x in os.listdir(d) if x.endswith(".ll")]
+            if stray:
+                problems.append("IR files outside the output directory: %s" % stray)
         dist["%s/%s/exit%d" % (sub, inp, 0 if p.returncode == 0 else 1)] += 1
         if inp == "clash" and problems == ["no rendered diagnostic"] and p.returncode != 0 and b"symbol multiply defined" in out:
             # F15 as the command line shows it: LLVM's linker prints its own message and ends the process; the status is
@@ -185,7 +192,7 @@ def main():
                 "argv": argv, "cwd": d, "env_backend": envv.get("PENNE_BACKEND") or envv.get("PENNE_LLI"),
                 "stub_status": status, "model_request": "C18\t" + req, "model": ma, "exit_status": p.returncode,
                 "problems": problems, "output_tail": out[-1500:].decode("utf8", "replace"),
-                "files": {f: open(os.path.join(d, f)).read() for f in files}})
+                "files": {os.path.basename(f): open(os.path.join(d, f)).read() for f in files}})
         else:
             agreeing += 1
             shutil.rmtree(d, ignore_errors=True)
